@@ -73,8 +73,15 @@ def main():
                          meta['demo_without_change']['exit'] == 0 and
                          'passed' in meta['tests_with_change'] and
                          'failed' not in meta['tests_with_change'])
-    notes = open(os.path.join(dst, 'NOTES.md')).read()
     meta['needs_to_manifest'] = '(see NOTES.md)'
+    try:        # keep what was recorded by hand on earlier evaluations
+        old = json.load(open(os.path.join(dst, 'meta.json')))
+        for k in ('needs_to_manifest', 'caught_initially', 'first_result',
+                  'after_strengthening', 'what_i_ran'):
+            if k in old:
+                meta[k] = old[k]
+    except (OSError, ValueError):
+        pass
     with open(os.path.join(dst, 'meta.json'), 'w') as f:
         json.dump(meta, f, indent=1)
     print(json.dumps({k: meta[k] for k in ('confirmed', 'caught',
